@@ -1159,7 +1159,31 @@ func aggAdd(t *Table, vals []GV) {
 	for _, v := range vals {
 		row = append(row, gvCell(v))
 	}
-	row = append(row, gvCell(res))
+	resCell := gvCell(res)
+	if e.ArgT == "float" && strings.Contains(t.Sym, ":") {
+		// built-in float aggregations: no document fixes the result in the presence of NaN, of
+		// both zeros (min/max) or of infinities of both signs; the specification is told so.
+		hasNaN, hasPZ, hasNZ, hasPI, hasNI := false, false, false, false, false
+		for _, v := range vals {
+			f := v.(float64)
+			switch {
+			case math.IsNaN(f):
+				hasNaN = true
+			case f == 0 && math.Signbit(f):
+				hasNZ = true
+			case f == 0:
+				hasPZ = true
+			case math.IsInf(f, 1):
+				hasPI = true
+			case math.IsInf(f, -1):
+				hasNI = true
+			}
+		}
+		if hasNaN || (hasPZ && hasNZ) || (hasPI && hasNI) {
+			resCell = Cell{3}
+		}
+	}
+	row = append(row, resCell)
 	t.Rows = append(t.Rows, row)
 }
 
